@@ -565,6 +565,24 @@ def eval_dataset(case):
                     if lab_nan[:, node].all() and cm.shape[0] == lab.shape[1] and np.abs(cm[node]).max() != 0:
                         cls = "missing-node:hidden-xy" if hid[:, node].any() else "missing-node"
                         res.fail(f"dataset:{kind}:confmap-for-missing-node:{cls}", f"index {idx}: node {node} missing in every animal but its map peaks at {float(cm[node].max()):.3f}")
+                # part-affinity fields: a missing keypoint contributes nothing - never NaN, and an edge whose source or
+                # destination is missing in every animal of the frame has an all-zero field (channels 2e, 2e+1)
+                paf = sample.get("part_affinity_fields")
+                if paf is not None:
+                    pf = paf.numpy()
+                    pf = pf.reshape(-1, pf.shape[-2], pf.shape[-1])
+                    edges = [tuple(e) for e in spec["skeleton"]["edges"]]
+                    if not np.isfinite(pf).all():
+                        bad = sorted({int(c) // 2 for c in np.argwhere(~np.isfinite(pf))[:, 0]})
+                        n_lab = int((~lab_nan.all(axis=1)).sum())
+                        res.fail(
+                            f"dataset:{kind}:paf-not-finite:{'one' if n_lab == 1 else 'several'}-labelled-animal(s)",
+                            f"index {idx}: part-affinity field has non-finite values in the channels of edge(s) {[edges[e] for e in bad if e < len(edges)]}; labels {lab.tolist()}",
+                        )
+                    elif pf.shape[0] == 2 * len(edges):
+                        for e, (a_, b_) in enumerate(edges):
+                            if (lab_nan[:, a_] | lab_nan[:, b_]).all() and np.abs(pf[2 * e : 2 * e + 2]).max() != 0:
+                                res.fail(f"dataset:{kind}:paf-for-missing-node", f"index {idx}: edge {(a_, b_)} has a missing end in every animal but its field peaks at {float(np.abs(pf[2 * e : 2 * e + 2]).max()):.3f}")
             elif kind == "centroid":
                 cen = sample["centroids"].numpy().reshape(-1, 2)[: lab.shape[0]]
                 a = cfg["anchor"]
